@@ -1127,3 +1127,19 @@ func vspecCWM(src []byte) int { return vspecCW(src) + 2 + vspecBE16(src, vspecCW
 //@   ensures[C07:codes] (err == nil) == vspecRetCodeOK(ret)
 //@   ensures[C07:codes] err == nil ==> m.dirty && len(m.returnCodes) == old(len(m.returnCodes))+1 && m.returnCodes[old(len(m.returnCodes))] == ret
 //@   modifies m.returnCodes, m.dirty, capelems(m.returnCodes)
+
+//@ func (*ConnackMessage).SetSessionPresent
+//@   ensures m.sessionPresent == v && m.dirty
+//@   modifies m.sessionPresent, m.dirty
+//@ func (*ConnackMessage).SetReturnCode
+//@   ensures m.returnCode == ret && m.dirty
+//@   modifies m.returnCode, m.dirty
+//@ func (*ConnectMessage).SetCleanSession
+//@   ensures vspecCFClean(m.connectFlags) == v && m.dirty && vspecCFWill(m.connectFlags) == old(vspecCFWill(m.connectFlags))
+//@   modifies m.connectFlags, m.dirty
+//@ func (*ConnectMessage).SetClientID
+//@   trusted
+//@   results err
+//@   ensures err == nil ==> sameslice(m.clientID, v) && m.dirty
+//@   ensures err != nil ==> sameslice(m.clientID, old(m.clientID)) && m.dirty == old(m.dirty)
+//@   modifies m.clientID, m.dirty
